@@ -268,8 +268,11 @@ Definition sched_time (now quantize delay : Q) : Q :=
   ((if Qeq_bool quantize 0 then now
     else quantize * inject_Z (Qceiling (round8 (now / quantize)))) + delay)%Q.
 
-(* if round(action.time, 8) <= round(self.current_time, 8) *)
-Definition action_due (time now : Q) : bool := Qle_bool (round8 time) (round8 now).
+(* if round(action.time - self.current_time, 8) <= 0
+   (the code rounds the difference; for times on a tick grid of fewer than 10^8 ticks per beat this and the earlier
+   form round(action.time, 8) <= round(self.current_time, 8) both equal the exact comparison: Base/Round8.v,
+   r8_diff_compare) *)
+Definition action_due (time now : Q) : bool := Qle_bool (round8 (time - now)) 0.
 
 (* the first tick k >= s (s = tick index at which schedule() is called) on which the track runs;
    with quantize = delay = 0 the track is started inside schedule() itself *)
